@@ -247,7 +247,14 @@ def _run_notify(case):
                     raise ValueError("handler failure")
             finally:
                 in_handler[0] -= 1
-        nm = notifmod.NotificationManager(handler)
+        ndone = [0]
+
+        class NM(notifmod.NotificationManager):
+            def done(self):
+                ndone[0] += 1
+                super().done()
+        nm = NM(handler)
+        restart = [None]
 
         def producer(pid, n, gap):
             for i in range(n):
@@ -264,23 +271,34 @@ def _run_notify(case):
                 ths.append(t)
             for t in ths:
                 t.join()
-            s.sleep(1.0)
+            s.sleep(sc.get("idle", 1.0))
             try:
                 nm.stop(forever=True, wait=True)
             except BaseException as e:      # pylint: disable=broad-except
                 if isinstance(e, T.SimAbort):
                     raise
                 errors.append(("stop", repr(e)))
+            s.sleep(0.5)
+            try:
+                nm.start()
+                restart[0] = "accepted"
+                nm.stop(forever=True, wait=True)
+            except RuntimeError:
+                restart[0] = "raised"
+            except T.SimAbort:
+                raise
+            except BaseException as e:      # pylint: disable=broad-except
+                errors.append(("start", repr(e)))
         try:
             s.run_main(main)
         except T.SimAbort:
             pass
     finally:
         T.uninstall()
-    return s, delivered, overlap[0], errors
+    return s, delivered, overlap[0], errors, ndone[0], restart[0]
 
 
-def _notify_violation(case, s, delivered, overlap, errors):
+def _notify_violation(case, s, delivered, overlap, errors, ndone=1, restart="raised"):
     sc = case["scenario"]
     if s.aborted and s.aborted != "finished":
         return ("hang", "the scheduler gave up: %s" % s.aborted)
@@ -295,6 +313,10 @@ def _notify_violation(case, s, delivered, overlap, errors):
         missing = sorted(set(want) - set(delivered))
         dup = sorted(set(x for x in delivered if delivered.count(x) > 1))
         return ("delivery", "notifications not delivered exactly once: missing %s duplicated %s (raising handler on %s)" % (missing[:5], dup[:5], sc["raise_on"]))
+    if ndone != 1:
+        return ("done-count", "the notification service was finally stopped while its loop was alive; cleanup ran %r time(s)" % (ndone,))
+    if restart == "accepted":
+        return ("restart-after-final-stop", "start() of the finally stopped notification service was accepted")
     for pid in range(len(sc["producers"])):
         mine = [x for x in delivered if x.startswith("p%d-" % pid)]
         if mine != ["p%d-%d" % (pid, i) for i in range(len(mine))]:
@@ -305,7 +327,7 @@ def _notify_violation(case, s, delivered, overlap, errors):
 def _gen_notify(rng):
     prods = [[rng.randint(1, 6), rng.choice([0, 0, 0.001, 0.2])] for _ in range(rng.randint(1, 3))]
     names = ["p%d-%d" % (pid, i) for pid, (n, g) in enumerate(prods) for i in range(n)]
-    return {"producers": prods, "raise_on": sorted(rng.sample(names, rng.randint(0, min(3, len(names)))))}
+    return {"producers": prods, "raise_on": sorted(rng.sample(names, rng.randint(0, min(3, len(names))))), "idle": rng.choice([0.0, 0.05, 1.0])}
 
 
 # ----------------------------------------------------------------------------------------------- interface
@@ -316,8 +338,8 @@ def _evaluate(case):
         v = _service_violation(case, s, hist, errors, info, ndone)
         shape = "svc|%s|%s|%s" % (",".join(case["scenario"]["outcomes"]), ";".join("%s" % a[0] + ("%s%s" % (int(a[1]), int(a[2])) if a[0] == "stop" else "") for a in case["scenario"]["script"]), s.digest())
     else:
-        s, delivered, overlap, errors = _run_notify(case)
-        v = _notify_violation(case, s, delivered, overlap, errors)
+        s, delivered, overlap, errors, nd, rs = _run_notify(case)
+        v = _notify_violation(case, s, delivered, overlap, errors, nd, rs)
         shape = "ntf|%s|%s|%s" % (case["scenario"]["producers"], case["scenario"]["raise_on"], s.digest())
     st = {"shape": shape, "nontrivial": s.switches >= 2, "fingerprints": [s.digest()], "sim_s": s.now - T.T0, "faults": {"preemptions": s.preempts, "thread-switches": s.switches},
           "probes": {"scheduling-decisions": s.decisions}, "family": case["family"], "digest": s.digest(),
